@@ -1075,6 +1075,11 @@ func (env *Zlisp) LeftBindingPower(sx Sexp) (int, error) {
 			return op.Bp, nil
 		}
 		if x.isDot {
+			if len(x.name) > 0 && x.name[0] != '.' {
+				// a dotted path such as h.x is an operand, not the field
+				// selector .x: it starts a new expression (statement).
+				return 0, nil
+			}
 			//Q("LeftBindingPower: dot symbol '%v', "+
 			//	"giving it binding-power 80", x.name)
 			return 80, nil
